@@ -64,7 +64,9 @@ func (h *hyStore) close() {
 	_ = h.ephDB.Close()
 }
 
-func isEphKey(k []byte) bool { return len(k) > 0 && thistory.ContentType(k[0]) == thistory.OfferEphemeralType }
+func isEphKey(k []byte) bool {
+	return len(k) > 0 && thistory.ContentType(k[0]) == thistory.OfferEphemeralType
+}
 
 func (h *hyStore) get(key, id []byte) string {
 	b, err := h.hs.Get(key, id)
@@ -170,7 +172,11 @@ func hyHistory(c *Ctx, capMB uint64, node [32]byte, ops []hyOp) {
 		}
 	})
 	if p {
-		c.Emit("%s | panic %s after=%d", head, msg, len(steps))
+		stp := strings.Join(steps, ";")
+		if len(steps) == 0 {
+			stp = "."
+		}
+		c.Emit("%s | panic %s after=%d %s", head, msg, len(steps), stp)
 		return
 	}
 	st := strings.Join(steps, ";")
